@@ -17,8 +17,8 @@ RULE = (
     "shared ast.Lambda object re-used across steps and datasets; MetaData(d), MetaData({}), QMetaData, the four result "
     "terminals, value_async with and without override executor, value(); a simulated backend applies the library's "
     "remove_empty_metadata / extract_metadata to the AST it received. Failed derivations are part of the history. "
-    "Invariant after every step, for every stream ever created: ast.dump(query_ast), item_type and the query-metadata "
-    "view equal the snapshot taken at creation. Non-trivial = the history contains an execution or a derivation from a "
+    "Invariant after every step, for every stream ever created: ast.dump(query_ast), item_type, the query-metadata "
+    "view and the position / target of the executor and dataset references annotated on its nodes equal the snapshot taken at creation. Non-trivial = the history contains an execution or a derivation from a "
     "stream that already has descendants, and a typed fix-up (default argument / callback metadata) or an empty MetaData "
     "wrapper is present. Distinct by history."
 )
@@ -146,7 +146,10 @@ def check(case) -> Result:
         feats = {"exec": False, "rederive": False, "fixup": False, "empty": False, "shared-ast": False, "failed-derive": False}
 
         def snap(s):
-            return (ast.dump(s.query_ast), s.item_type, tuple(lookup_query_metadata(s, k) for k in QKEYS))
+            # the executor / dataset references func_adl keeps as node annotations are part of what the query means (which
+            # dataset runs it): where they sit and what they refer to is observed too
+            notes = tuple((i, a, id(getattr(n, a))) for i, n in enumerate(ast.walk(s.query_ast)) for a in ("_func_adl_executor", "_eds_object") if hasattr(n, a))
+            return (ast.dump(s.query_ast), s.item_type, tuple(lookup_query_metadata(s, k) for k in QKEYS), notes)
 
         def add(s, parent):
             streams.append([s, snap(s)])
@@ -165,6 +168,8 @@ def check(case) -> Result:
                     return f"step {step} ({what}) changed the item type of stream #{idx}: {sn[1]} -> {now[1]}"
                 if now[2] != sn[2]:
                     return f"step {step} ({what}) changed the query metadata seen on stream #{idx}: {sn[2]} -> {now[2]}"
+                if now[3] != sn[3]:
+                    return f"step {step} ({what}) changed the executor / dataset annotations on the nodes of stream #{idx}: {[x[:2] for x in sn[3]]} -> {[x[:2] for x in now[3]]}"
             return None
 
         n_value = 0
